@@ -44,7 +44,7 @@ func runReq(data json.RawMessage) vh.Verdict {
 	if cores == 0 {
 		cores = 2
 	}
-	out := handle(e, handleOptions{Cores: cores, DeadlineM: 4000})
+	out := handleAll(e, handleOptions{Cores: cores, DeadlineM: 4000, Service: true})
 	obs := reqObs{Kind: out.Kind, Stage: out.Stage, Site: out.Site, Panic: out.Panic, Type: out.Type}
 	stats := map[string]int{"outcome_" + out.Kind: 1}
 	if out.Kind == "unsendable" {
